@@ -319,13 +319,25 @@ func (f *fidRef) markChildDeleted(name string) {
 //
 // Precondition: this must be called via safelyGlobal.
 func notifyNameChange(pn *pathNode) {
-	// Call on all local references.
-	//
 	// A reference may be dropped concurrently (a Tclunk or a disconnect does
-	// not take renameMu), which closes its File. Pin each reference before
-	// calling into its File, as removeWithName does, and release the pins
-	// only after childMu has been released: dropping the last reference
-	// calls removeChild on this very node.
+	// not take renameMu), which closes its File. Each reference is pinned
+	// before calling into its File, as removeWithName does. The pins are
+	// released only after the whole subtree has been visited, when no
+	// childMu is held any more: dropping the last reference of a child calls
+	// removeChild on its node and may drop the last reference of its parent,
+	// which calls removeChild on a node further up that the traversal still
+	// holds read-locked.
+	var pins []*fidRef
+	notifyNameChangePinned(pn, &pins)
+	for _, ref := range pins {
+		ref.DecRef()
+	}
+}
+
+// notifyNameChangePinned is the recursive part of notifyNameChange. Every
+// reference it calls Renamed on is appended to pins with a reference held.
+func notifyNameChangePinned(pn *pathNode, pins *[]*fidRef) {
+	// Call on all local references.
 	type pinned struct {
 		ref  *fidRef
 		name string
@@ -338,12 +350,12 @@ func notifyNameChange(pn *pathNode) {
 	})
 	for _, p := range refs {
 		p.ref.file.Renamed(p.ref.parent.file, p.name)
-		p.ref.DecRef()
+		*pins = append(*pins, p.ref)
 	}
 
 	// Call on all subtrees.
 	pn.forEachChildNode(func(pn *pathNode) {
-		notifyNameChange(pn)
+		notifyNameChangePinned(pn, pins)
 	})
 }
 
